@@ -1436,7 +1436,14 @@ def cross_domain_design():
     m.specials += mem, pw, pr
     q = Signal(4, name_override="q")
     m.comb += [pw.adr.eq(r1[:2]), pw.dat_w.eq(a), pw.we.eq(c), pr.adr.eq(k[:2]), q.eq(pr.dat_r)]
-    ios = {a, c, q, m.cd_sys.clk, m.cd_sys.rst, m.cd_other.clk, m.cd_other.rst}
+    # combinational logic whose only changing dependency is an assignment-target key or a reset used by reference
+    from migen import Array, ResetSignal
+    sel = Signal(2, name_override="sel")
+    d = Signal(3, name_override="d")
+    outs = [Signal(3, name_override="o%d" % i) for i in range(3)]
+    rst_o = Signal(name_override="rst_o")
+    m.comb += [Array(outs)[sel].eq(d), rst_o.eq(ResetSignal("sys"))]
+    ios = {a, c, q, sel, d, rst_o, m.cd_sys.clk, m.cd_sys.rst, m.cd_other.clk, m.cd_other.rst} | set(outs)
     return m, ios
 
 
@@ -1476,6 +1483,12 @@ def job_cosim(K, nseeds):
         for seed in range(nseeds):
             rnd = random.Random(1000 + seed)
             stim = [{s_: (rstval(s_) if t == 0 else rnd.getrandbits(len(s_))) for s_ in free} for t in range(K + 1)]
+            for t in range(2, K + 1):          # every other step changes ONE input only (the others keep their value)
+                if t % 2 == 0:
+                    only = rnd.choice(free)
+                    for s_ in free:
+                        if s_ is not only:
+                            stim[t][s_] = stim[t - 1][s_]
             for row in stim:       # resets low: reset behaviour (incl. the listed memory-reset finding) is the subject of the solver-decided phases
                 for s_ in row:
                     if tr.names[s_].endswith("rst"):
@@ -1485,6 +1498,19 @@ def job_cosim(K, nseeds):
             rows = cosim.real_run(tr, stim, sched)
             for t in range(K):
                 sub = [(tr.cur[s_], z3.BitVecVal(rows[t][s_], len(s_))) for s_ in tr.vars if s_ not in tr.comb_targets and s_ in rows[t] and s_ in tr.cur and not z3.is_bv_value(tr.cur[s_])]
+                # combinational outputs of the real simulator in this instant against the text evaluated on the same registers/inputs
+                for s_ in tr.comb_targets:
+                    try:
+                        nm_ = c.ns.get_name(s_)
+                    except Exception:
+                        continue
+                    if nm_ in c.vres and s_ in rows[t] and t >= 1:
+                        v = z3.simplify(z3.substitute(c.vres[nm_], *sub))
+                        if z3.is_bv_value(v):
+                            compared += 1
+                            if rows[t][s_] != v.as_long() and first is None:
+                                first = dict(seed=seed, step=t, ticking=sorted(sched[t]), register="comb:" + nm_, real_simulator=rows[t][s_], verilog_text=v.as_long(),
+                                             state={tr.names[x]: rows[t][x] for x in tr.regs if rows[t][x]}, inputs={tr.names[x]: stim[t][x] for x in free})
                 for s_, key in text_of.items():
                     dom = clkdom.get(c.vclk.get(key))
                     if dom is None:
